@@ -1,6 +1,7 @@
 (* C10 — swaps exchange exactly the named elements, rows or columns for every index pair.
    Only statements; proofs in Proofs/Swap.v.  `sw a b i` is the transposition of a and b (the identity when a = b). *)
-From Matreex Require Import Model.Ops Proofs.Layout Proofs.Swap.
+From Coq Require Import Permutation.
+From Matreex Require Import Model.Ops Proofs.Layout Proofs.Swap Proofs.SwapPerm.
 
 Example C10_instances :
   let m := mat_of_fun ColMajor 2 3 (fun r c => r * 10 + c) in
@@ -29,6 +30,16 @@ Theorem C10_swap_cols : forall (A : Type) (c : cfg) (es : Z) (m : matrix A) (a b
   else swap_cols c m a b = Val (Err IndexOutOfBounds).
 Proof. intros A c es m a b. exact (swap_cols_logical c es m a b). Qed.
 Print Assumptions C10_swap_cols.
+
+(* the vector swaps move elements (ptr::swap / swap_nonoverlapping): the element store afterwards is a permutation of the
+   one before - nothing is cloned, nothing is dropped - for every index pair, shape and order *)
+Theorem C10_swaps_move_only : forall (A : Type) (c : cfg) (es : Z) (m m' : matrix A) (a b : Z),
+  Coh c es m -> 0 <= a -> 0 <= b ->
+  (swap_rows c m a b = Val (Ok m') \/ swap_cols c m a b = Val (Ok m')) -> Permutation (m_data m) (m_data m').
+Proof.
+  intros A c es m m' a b HC Ha Hb [E|E]; [exact (swap_rows_moves_only c es m a b m' HC Ha Hb E)|exact (swap_cols_moves_only c es m a b m' HC Ha Hb E)].
+Qed.
+Print Assumptions C10_swaps_move_only.
 
 (* swap(i, j) once both indices have resolved to positions p, q of the element store (C04 / C13 say which):
    the two elements exchanged, everything else in place; p = q is a no-op *)
